@@ -207,12 +207,13 @@ def render(template_text, flags=(), canary=False):
                     subs.append(('@inline', _kv(t[len('//@inline '):]), None))
                 elif t.startswith('//@sub ') or t.startswith('//@hsub '):
                     isH = t.startswith('//@hsub ')
-                    m = re.match(r'//@h?sub\s+"((?:[^"\\]|\\.)*)"\s*=>\s*"((?:[^"\\]|\\.)*)"(?:\s+n=(\d+))?', t)
+                    m = re.match(r'//@h?sub\s+"((?:[^"\\]|\\.)*)"\s*=>\s*"((?:[^"\\]|\\.)*)"(?:\s+n=(\d+|\*))?', t)
                     if not m:
                         raise TemplateError('bad sub directive: ' + t)
                     pat = m.group(1).replace('\\"', '"')
                     rep = m.group(2).replace('\\"', '"')
-                    (hsubs if isH else subs).append((pat, rep, int(m.group(3)) if m.group(3) else None))
+                    cnt_ = None if not m.group(3) else (-1 if m.group(3) == '*' else int(m.group(3)))
+                    (hsubs if isH else subs).append((pat, rep, cnt_))
                 elif t.startswith('//@contract'):
                     cur = ('contract', {}, [])
                     sections.append(cur)
@@ -247,8 +248,12 @@ def render(template_text, flags=(), canary=False):
             # canaries: a renamed copy of the same real body whose only postcondition is
             # a deliberately false clause; it MUST fail (vacuity / observation guard).
             # Callers keep calling the original, so a canary never poisons another proof.
-            if canary:
-                for ci_, (label, clause) in enumerate(fn_canaries):
+            if canary and args.get('canary', 'auto') != 'off':
+                # automatic vacuity canary: `ensures false` on a copy of the real body
+                # (fails unless the precondition is contradictory or the body is not
+                # actually being verified); explicit //@canary clauses are added to it
+                auto = [('CANARY.%s.false' % (args.get('rename') or args['name']), 'false,')]
+                for ci_, (label, clause) in enumerate(auto + fn_canaries):
                     gg = Generated()
                     a2 = dict(args)
                     a2['rename'] = '%s__canary_%d' % (args.get('rename') or args['name'], ci_)
@@ -458,7 +463,7 @@ def _render_fn(g, args, rws, subs, hsubs, sections):
                 raise AnchorLost('helper call self.%s(..) not found in %s' % (rep['name'], fname))
             continue
         body, n = re.subn(pat, rep, body)
-        if cnt is not None and n != cnt:
+        if cnt is not None and cnt >= 0 and n != cnt:
             raise AnchorLost('ad-hoc rewrite %r in %s matched %d times, expected %d' % (pat, fname, n, cnt))
         if cnt is None and n == 0:
             raise AnchorLost('ad-hoc rewrite %r in %s did not match' % (pat, fname))
